@@ -67,8 +67,13 @@ pub trait Controller {
     /// `Some(true)`: run the file operation of `len` bytes inline; `Some(false)`: hand it to
     /// `submit_job`; `None`: pearl's own rule.
     fn io_inplace(&self, len: u64) -> Option<bool>;
-    /// A blocking file operation that the controller schedules as an entity of its own.
-    fn submit_job(&self, job: Box<dyn FnOnce() + Send>);
+    /// A blocking file operation that the controller schedules as an entity of its own. Running
+    /// the job executes the closure and returns the step that delivers its result to the waiting
+    /// task; the controller may run that step later (after applying writes it deferred, see
+    /// [`TapAction::Defer`]).
+    fn submit_job(&self, job: Box<dyn FnOnce() -> Box<dyn FnOnce() + Send> + Send>);
+    /// A write the tap answered with `Defer`: the controller performs it later on `file`.
+    fn deferred_write(&self, file: std::fs::File, offset: u64, data: Vec<u8>);
     /// The running task enters (`true`) / leaves (`false`) a section whose suspensions wait for
     /// the real blocking pool (`tokio::fs`); the controller must not treat them as choices.
     fn external(&self, begin: bool);
@@ -205,8 +210,11 @@ where
     R: Send + 'static,
 {
     let (tx, rx) = tokio::sync::oneshot::channel();
-    let boxed: Box<dyn FnOnce() + Send> = Box::new(move || {
-        let _ = tx.send(f());
+    let boxed: Box<dyn FnOnce() -> Box<dyn FnOnce() + Send> + Send> = Box::new(move || {
+        let res = f();
+        Box::new(move || {
+            let _ = tx.send(res);
+        })
     });
     with(|c| c.submit_job(boxed)).expect("verif::job without controller");
     rx.await.expect("verif job dropped without running")
